@@ -189,6 +189,10 @@ def _ops():
         "mul": (anyr, lambda x: x * 0.7),
         "div": (anyr, lambda x: x / 2.5),
         "rdiv": (anyr, lambda x: 1.5 / (x * x + 1.0)),
+        # multi-result primitives at the top level whose FIRST result is an integer counter
+        "fori-loop": (anyr, lambda x: jax.lax.fori_loop(0, 3, lambda i, acc: acc * 0.5 + x * (i + 1.0), jnp.zeros_like(x))),
+        "scan-int-counter": (anyr, lambda x: jax.lax.scan(lambda c, _: ((c[0] + 1, c[1] * 0.7 + x * c[0]), None), (jnp.int32(1), jnp.ones_like(x)), None, length=3)[0][1]),
+        "jit-argmax-max": (arr, lambda x: (lambda im: im[1] * 2.0 + 0.0 * im[0])(jax.jit(lambda y: (jnp.argmax(y), jnp.max(y)))(x))),
         # complex intermediates between real input and real output (dtype conversions)
         "complex-abs": (anyr, lambda x: jnp.abs(jax.lax.complex(x, 0.5 * x * x + 1.0))),
         "exp-i-real": (anyr, lambda x: jnp.real(jnp.exp(1j * x)) + jnp.imag(jnp.exp(1j * x))),
